@@ -160,3 +160,23 @@ def run(ctx):
                             "(sender encoder, sender FileDesc, receiver) - same analysis as C07.R1", "ARG")
     from . import c07
     c07.partition_call_agreement(ctx, r4)
+
+    # ---- R5 / R6 what a late joiner depends on, shared with C11 / C03 -------------------------------------------------
+    r5 = ctx.rule("C16.R5", "being-transferred mode keeps a live FDT for every carouselled object: every transfer start in get_next_file_transfer - first "
+                            "transfer or carousel repeat alike - is followed by Fdt::publish (shared with C11.R4); in the receiver the instance offered to the "
+                            "waiting objects is the one that just completed (same end of fdt_current as the push)", "PAIR under assumption + ARG")
+    from . import c11
+    c11.auto_publish_rule(ctx, r5)
+    g2 = prog.fn(RC + "::push_fdt_obj")
+    al2 = prog.fn(RC + "::attach_latest_fdt_to_objects")
+    push_end = set(method_name(s).split("_")[-1] for s, ai, mut in calls_on_field(prog, RC, "fdt_current", funcs=[g2]) if method_name(s) in ("push_front", "push_back"))
+    take_end = set(re.sub(r"_mut$", "", method_name(s)) for s, ai, mut in calls_on_field(prog, RC, "fdt_current", funcs=[al2]) if method_name(s) in ("front", "front_mut", "back", "back_mut"))
+    key = "attach_latest_fdt_to_objects offers the instance that just completed"
+    if push_end and take_end and push_end == take_end:
+        r5.ok(key, "push_%s / %s" % (sorted(push_end)[0], sorted(take_end)[0]), loc(al2.sp))
+    else:
+        r5.violation(key, "push_fdt_obj stores the completed instance with push_%s but attach_latest_fdt_to_objects takes %s: waiting objects are offered an old "
+                          "instance and stay unattached for several cycles" % (sorted(push_end), sorted(take_end)), loc(al2.sp))
+    r5.floor(2, "carousel FDT facts")
+    from . import c01
+    c01.decoding_params_provenance(ctx, ctx.rule("C16.R6", "a packet seen before the FDT must not freeze decoding parameters the FDT will bring: " + c01.DECODING_TEXT, "WWF + value provenance (shared with C03.R6)"))
